@@ -1,5 +1,5 @@
 //! C19 — chaos injection is reproducible and bounded; injected errors skip the inner call
-//! (engine C: full finite grid, three equally seeded instances (built with the builder calls in three different orders) run side by side).
+//! (engine C: full finite grid, four equally seeded instances (built with the builder calls in three different orders; one of them serving every request through a fresh clone) run side by side).
 
 use serde_json::json;
 use std::time::Duration;
@@ -27,6 +27,12 @@ const N_REQ: usize = 24;
 /// both, 2 = between them (each builder type re-implements every setter by hand). The equally
 /// seeded instances of every grid point are built in all three orders.
 fn run_instance(seed: Option<u64>, err_rate: f64, lat_rate: f64, min: u64, max: u64, order: u8) -> Result<Vec<Obs>, String> {
+    run_instance_via(seed, err_rate, lat_rate, min, max, order, false)
+}
+
+/// `via_clones`: every request goes through a fresh clone of the service (the usual
+/// `svc.clone().oneshot(req)` pattern) instead of through the one handle.
+fn run_instance_via(seed: Option<u64>, err_rate: f64, lat_rate: f64, min: u64, max: u64, order: u8, via_clones: bool) -> Result<Vec<Obs>, String> {
     let w = World::new(0, 10, Mode::Script, 1);
     fn inject(_r: &Req) -> InnerErr {
         InnerErr { id: 4242, kind: 7 }
@@ -63,8 +69,14 @@ fn run_instance(seed: Option<u64>, err_rate: f64, lat_rate: f64, min: u64, max: 
         let before = w.inner.lock().unwrap().calls.len();
         let r = std::panic::catch_unwind(std::panic::AssertUnwindSafe(|| {
             w.block_on(async {
-                let _ = futures::future::poll_fn(|cx| Service::<Req>::poll_ready(&mut svc, cx)).await;
-                svc.call(req.clone()).await
+                if via_clones {
+                    let mut c = svc.clone();
+                    let _ = futures::future::poll_fn(|cx| Service::<Req>::poll_ready(&mut c, cx)).await;
+                    c.call(req.clone()).await
+                } else {
+                    let _ = futures::future::poll_fn(|cx| Service::<Req>::poll_ready(&mut svc, cx)).await;
+                    svc.call(req.clone()).await
+                }
             })
         }))
         .map_err(|_| format!("request {i} panicked"))?;
@@ -105,7 +117,7 @@ fn main() {
     }
     let tier = cli.tier;
     let mut rep = Report::new("C19", tier, "exploration");
-    rep.rule = "full grid: seeds {0..63 (quick) / 0..255 (thorough), 2^32-1, 2^64-1} x error rate {0, 0.3, 1} x latency rate {0, 0.5, 1} x latency range ms {(0,0),(5,5),(5,20),(20,5),(1200,1800),(2000,2000),(500,2500),(61000,62000),(3600000,1)} x 24 sequential requests; three equally seeded instances (built with the builder calls in three different orders) run side by side under virtual time and must make identical decisions and inject identical latencies. distinct = distinct (configuration, decision vector) pairs".into();
+    rep.rule = "full grid: seeds {0..63 (quick) / 0..255 (thorough), 2^32-1, 2^64-1} x error rate {0, 0.3, 1} x latency rate {0, 0.5, 1} x latency range ms {(0,0),(5,5),(5,20),(20,5),(1200,1800),(2000,2000),(500,2500),(61000,62000),(3600000,1)} x 24 sequential requests; four equally seeded instances (built with the builder calls in three different orders; one of them serving every request through a fresh clone) run side by side under virtual time and must make identical decisions and inject identical latencies. distinct = distinct (configuration, decision vector) pairs".into();
     let mut seeds: Vec<u64> = (0..tier.pick(64u64, 256)).collect();
     seeds.push(u32::MAX as u64);
     seeds.push(u64::MAX);
@@ -124,15 +136,16 @@ fn main() {
                     let a = run_instance(Some(seed), er, lr, min, max, 0);
                     let b = run_instance(Some(seed), er, lr, min, max, 1);
                     let c = run_instance(Some(seed), er, lr, min, max, 2);
-                    rep.evaluations += 3 * N_REQ as u64;
-                    let (a, b, c) = match (a, b, c) {
-                        (Ok(a), Ok(b), Ok(c)) => (a, b, c),
-                        (Err(e), _, _) | (_, Err(e), _) | (_, _, Err(e)) => {
+                    let d = run_instance_via(Some(seed), er, lr, min, max, 0, true);
+                    rep.evaluations += 4 * N_REQ as u64;
+                    let (a, b, c, d) = match (a, b, c, d) {
+                        (Ok(a), Ok(b), Ok(c), Ok(d)) => (a, b, c, d),
+                        (Err(e), _, _, _) | (_, Err(e), _, _) | (_, _, Err(e), _) | (_, _, _, Err(e)) => {
                             viol(&mut rep, "not_transparent", cfg.clone(), e);
                             continue;
                         }
                     };
-                    for (name, other) in [("settings before error_rate", &b), ("settings between error_rate and error_fn", &c)] {
+                    for (name, other) in [("settings before error_rate", &b), ("settings between error_rate and error_fn", &c), ("same order, every request through a fresh clone of the service", &d)] {
                         if &a != other {
                             let i = a.iter().zip(other.iter()).position(|(x, y)| x != y).unwrap();
                             viol(&mut rep, "not_reproducible", cfg.clone(), format!("two instances with seed {seed} (builder order: settings last / {name}) differ at request {i}: {:?} vs {:?}", a[i], other[i]));
